@@ -232,6 +232,7 @@ fn seq_strategy() -> impl Strategy<Value = Vec<EvSpec>> {
 
 fn run(ctx: &Ctx) {
     ctx.run_regress::<Case, _>(check);
+    ctx.run_regress::<super::c19_serde::DynCase, _>(super::c19_serde::check_dyn);
     let strat = || Box::new((seq_strategy(), prop::sample::select(vec![b' ', b'\t', b'\n']), 0u8..10, ((1u8..25, any::<bool>()).prop_map(|(m, v)| m | if v { 0x80 } else { 0 }), any::<u64>())).prop_map(|(events, indent_char, indent_size, sink)| Case { events, indent_char, indent_size, sink }));
     ctx.run_proptest_with("event-sequences", ctx.tier.pick(300_000, 4_000_000), strat, check);
     super::c19_serde::run(ctx);
